@@ -766,3 +766,89 @@ func ZZ_C09_throw_values() {
 	zz.Assertf((err != nil) == wantErr, "C09.throw/error-status/"+id, src)
 	zz.Assertf(zzSameTrace(zz.Trace(), want), "C09.throw/nothing-runs-after-the-throw/"+id, src)
 }
+
+// ZZ_C09_defer_call_shapes: every shape of deferred call runs exactly once when
+// the invocation ends, with the arguments as evaluated at the defer statement,
+// after the body and in reverse order of registration: script functions of
+// 0..6 parameters, variadic script and Go functions with and without a spread
+// argument, a spread over fixed parameters, literals, module members.  Each
+// callee records (shape tag, value) in a Go-side log.
+func ZZ_C09_defer_call_shapes() {
+	a, b, c := zz.Int64(), zz.Int64(), zz.Int64()
+	type rec struct{ tag, v int64 }
+	var log []rec
+	e := env.NewEnv()
+	e.Define("A", a)
+	e.Define("B", b)
+	e.Define("C", c)
+	e.Define("rec", func(tag, v int64) { log = append(log, rec{tag, v}) })
+	e.Define("gosum", func(tag int64, xs ...int64) {
+		s := int64(len(xs)) * 1000000
+		for _, x := range xs {
+			s += x
+		}
+		log = append(log, rec{tag, s})
+	})
+	e.Define("gofixed", func(tag, x, y int64) { log = append(log, rec{tag, x - y}) })
+	e.Define("len", func(v []interface{}) int64 { return int64(len(v)) })
+	shapes := []struct {
+		name, def, call string
+		want            int64
+	}{
+		{"script-0", "f = func() { rec(T, 7) }", "f()", 7},
+		{"script-1", "f = func(x) { rec(T, x) }", "f(A)", a},
+		{"script-2", "f = func(x, y) { rec(T, x - y) }", "f(A, B)", a - b},
+		{"script-3", "f = func(x, y, z) { rec(T, x - y + z) }", "f(A, B, C)", a - b + c},
+		{"script-4", "f = func(x, y, z, u) { rec(T, x - y + z - u) }", "f(A, B, C, 1)", a - b + c - 1},
+		{"script-5", "f = func(x, y, z, u, v) { rec(T, x - y + z - u + v) }", "f(A, B, C, 1, 2)", a - b + c - 1 + 2},
+		{"script-6", "f = func(x, y, z, u, v, w) { rec(T, x - y + z - u + v - w) }", "f(A, B, C, 1, 2, 3)", a - b + c - 1 + 2 - 3},
+		{"script-variadic", "f = func(xs...) { rec(T, len(xs) * 1000000 + xs[0] - xs[1]) }", "f(A, B)", 2000000 + a - b},
+		{"script-variadic-spread", "f = func(xs...) { rec(T, len(xs) * 1000000 + xs[0] - xs[1]) }", "f([A, B]...)", 2000000 + a - b},
+		{"script-fixed-then-variadic", "f = func(x, ys...) { rec(T, len(ys) * 1000000 + x - ys[0]) }", "f(A, B, C)", 2000000 + a - b},
+		{"script-fixed-then-variadic-spread", "f = func(x, ys...) { rec(T, len(ys) * 1000000 + x - ys[0]) }", "f(A, [B, C]...)", 2000000 + a - b},
+		{"script-spread-fixed", "f = func(x, y) { rec(T, x - y) }", "f([A, B]...)", a - b},
+		{"script-spread-fixed-3", "f = func(x, y, z) { rec(T, x - y + z) }", "f(A, [B, C]...)", a - b + c},
+		{"literal", "", "func(x, y) { rec(T, x - y) }(A, B)", a - b},
+		{"literal-0", "", "func() { rec(T, A - B + 9) }()", 9}, // no arguments: the closure reads A and B when it runs
+		{"go-variadic", "", "gosum(T, A, B)", 2000000 + a + b},
+		{"go-variadic-spread", "", "gosum(T, [A, B]...)", 2000000 + a + b},
+		{"go-variadic-empty", "", "gosum(T)", 0},
+		{"go-fixed", "", "gofixed(T, A, B)", a - b},
+		{"go-fixed-spread", "", "gofixed(T, [A, B]...)", a - b},
+		{"module-member", "module m { f = func(x, y) { rec(T, x - y) } }", "m.f(A, B)", a - b},
+	}
+	s := shapes[zz.Choose(len(shapes))]
+	// the deferred call of the shape between two plain deferred calls, in a
+	// function whose body runs after the defer statements; a second program
+	// re-binds the argument variables after the defer statement
+	exit := []string{"", "return 5", "undefined_name"}[zz.Choose(3)]
+	src := "T = 2\n" + s.def + "\nmain = func() {\n defer rec(1, 1)\n defer " + s.call + "\n defer rec(3, 3)\n A = 0\n B = 0\n rec(4, 4)\n " + exit + "\n}\ntry { main() } catch e { rec(5, 5) }"
+	zz.Budget(400000)
+	_, err := Execute(e, &Options{Debug: false}, src)
+	id := s.name + "/" + []string{"falls-off-the-end", "return", "error"}[zz.Choose(1)*0+indexOf([]string{"", "return 5", "undefined_name"}, exit)]
+	zz.Assertf(err == nil, "C09.defer-shape/no-host-error/"+id, src)
+	// expected log: body (4), then LIFO: 3, the shape (2), 1; then 5 iff the body failed
+	want := []rec{{4, 4}, {3, 3}, {2, s.want}, {1, 1}}
+	if exit == "undefined_name" {
+		want = append(want, rec{5, 5})
+	}
+	zz.Assertf(len(log) == len(want), "C09.defer-shape/runs-exactly-once-lifo/"+id, src)
+	if len(log) != len(want) {
+		return
+	}
+	for i := range want {
+		zz.Assertf(log[i].tag == want[i].tag, "C09.defer-shape/runs-exactly-once-lifo/"+id, src)
+		if log[i].tag == want[i].tag {
+			zz.Assertf(log[i].v == want[i].v, "C09.defer-shape/arguments-as-evaluated-at-the-defer-statement/"+id, src)
+		}
+	}
+}
+
+func indexOf(l []string, s string) int {
+	for i, x := range l {
+		if x == s {
+			return i
+		}
+	}
+	return 0
+}
